@@ -8,6 +8,19 @@ From Verif Require Import Json Outcome Match PatIndex State.
 Definition cascade_terminates_statement : Prop :=
   forall s id now, snd (st_rem s id now) <> OutOfFuel.
 
+(** (1b) The purge of the noted expired items (the rounds of removals the
+    public entry points run under the write lock, after D52's repair)
+    terminates too, on every state: with the rounds the model allows (number
+    of facts + 1: a round that notes new ids has removed at least one fact)
+    it never runs out of fuel, it never panics and never reports an error of
+    its own (the errors of its removals are logged), and no id is left noted. *)
+Definition purge_terminates_statement : Prop :=
+  forall s now, snd (purge s now) = Ok tt /\ st_pending (fst (purge s now)) = [].
+
+(** so a public entry point answers what its operation proper answered *)
+Definition purge_keeps_answer_statement : Prop :=
+  forall A (r : state * outcome A) now, with_purge r now = (fst (purge (fst r) now), snd r).
+
 (** Fuel is only a device: any larger amount gives the same answer. *)
 Definition cascade_fuel_irrelevant_statement : Prop :=
   forall s id now fuel, (cascade_fuel s <= fuel)%nat ->
